@@ -294,6 +294,12 @@ def run_trace(spec, seed):
     prob = Problem(spec, rec)
     _random.seed(seed); np.random.seed(seed % (2**31))
     s = build_solver(spec, prob)
+    if spec.get("mapper") and hasattr(s, "SetMapper"):
+        # a user-supplied map (here: a serial re-implementation): DifferentialEvolutionSolver2 treats every map that is not
+        # its default python_map as "foreign" (no evaluation monitor inside the map)
+        def serial_map(f, *args, **kwds):
+            return [f(*a) for a in zip(*args)]
+        s.SetMapper(serial_map)
     if spec["solver"] in ("DE", "DE2"):
         s.strategy = spec.get("strategy", "Best1Bin")
         s.scale = spec.get("F", 0.8); s.probability = spec.get("CR", 0.9)
